@@ -124,6 +124,7 @@ probes_float!(f64, 64);
 impl Probes for String {}
 impl Probes for Vec<i32> {}
 impl Probes for Point {}
+impl Probes for crate::types::CowF {}
 
 pub fn check<I: Probes>(vt: &'static Vt<I>, ctx: &Ctx) -> DeclReport {
     let Some(err_text) = vt.err_text else { return DeclReport::irrelevant(vt.id) };
@@ -213,7 +214,10 @@ pub fn check<I: Probes>(vt: &'static Vt<I>, ctx: &Ctx) -> DeclReport {
         }
         // the same text is embedded in serde and FromStr errors
         if let (Some(de), Some(bad)) = (vt.de, find_violating::<I>(vt, ix)) {
-            if let Ok(doc) = enc(Fmt::Json, &bad) {
+            // only documents that carry the value at all: JSON has no text for non-finite floats (`null`), and
+            // such a document fails in the inner type's own deserializer before any validator runs
+            let carried = |doc: &[u8]| matches!(vt.de_ref.map(|f| f(Fmt::Json, Pos::Top, doc)), Some(Ok(ref v)) if v.first().is_some_and(|x| x.same(&bad)));
+            if let Some(doc) = enc(Fmt::Json, &bad).ok().filter(|d| carried(d)) {
                 rep.evaluations += 1;
                 if let Ok(Err(e)) = no_panic(|| de(Fmt::Json, Pos::Top, &doc)) {
                     if !e.contains(&text) {
